@@ -18468,6 +18468,9 @@ int cg_units_write(CGNS_ENUMT(MassUnits_t) mass,
     units->time = time;
     units->temperature = temperature;
     units->angle = angle;
+    units->current = CGNS_ENUMV( ElectricCurrentUnitsNull );
+    units->amount = CGNS_ENUMV( SubstanceAmountUnitsNull );
+    units->intensity = CGNS_ENUMV( LuminousIntensityUnitsNull );
 
      /* initialize other fields */
     strcpy(units->name, "DimensionalUnits");
